@@ -772,39 +772,43 @@ static struct hnd *a_h;
 static char a_block[64], a_key[64];
 static int which_fn;
 
-static void call_crypt_rn (void) { errno = 0; r_ret = f_crypt_rn (a_phr, a_set, a_data, a_size); r_errno = errno; }
+/* errno on entry is part of the call history the library must not read (C07) and must overwrite on failure (C05):
+   mode -1 = keep what the previous library call left, otherwise the value installed before every call */
+static int ein_mode, ein_last, ein_used;
+static int ein (void) { ein_used = ein_mode < 0 ? ein_last : ein_mode; return ein_used; }
+static void call_crypt_rn (void) { errno = ein (); r_ret = f_crypt_rn (a_phr, a_set, a_data, a_size); r_errno = errno; ein_last = r_errno; }
 static void call_crypt_r (void)
 {
-  errno = 0;
+  errno = ein ();
   r_ret = (which_fn == 1 ? f_xcrypt_r : f_crypt_r) (a_phr, a_set, a_data);
-  r_errno = errno;
+  r_errno = errno; ein_last = r_errno;
 }
 static void call_crypt (void)
 {
-  errno = 0;
+  errno = ein ();
   r_ret = (which_fn == 1 ? f_fcrypt : which_fn == 2 ? f_xcrypt : f_crypt) (a_phr, a_set);
-  r_errno = errno;
+  r_errno = errno; ein_last = r_errno;
 }
-static void call_crypt_ra (void) { errno = 0; r_ret = f_crypt_ra (a_phr, a_set, &a_h->data, &a_h->size); r_errno = errno; }
+static void call_crypt_ra (void) { errno = ein (); r_ret = f_crypt_ra (a_phr, a_set, &a_h->data, &a_h->size); r_errno = errno; ein_last = r_errno; }
 static void call_gensalt_rn (void)
 {
-  errno = 0;
+  errno = ein ();
   r_ret = (which_fn == 1 ? f_gensalt_r : which_fn == 2 ? f_xgensalt_r : f_gensalt_rn)
           (a_prefix, a_count, a_rb, a_nrbytes, a_out, a_outsize);
-  r_errno = errno;
+  r_errno = errno; ein_last = r_errno;
 }
 static void call_gensalt (void)
 {
-  errno = 0;
+  errno = ein ();
   r_ret = (which_fn == 1 ? f_xgensalt : f_gensalt) (a_prefix, a_count, a_rb, a_nrbytes);
-  r_errno = errno;
+  r_errno = errno; ein_last = r_errno;
 }
-static void call_gensalt_ra (void) { errno = 0; r_ret = f_gensalt_ra (a_prefix, a_count, a_rb, a_nrbytes); r_errno = errno; }
-static void call_checksalt (void) { errno = 0; r_int = f_checksalt (a_set); r_errno = errno; }
-static void call_setkey_r (void) { errno = 0; f_setkey_r (a_key, a_data); r_errno = errno; }
-static void call_encrypt_r (void) { errno = 0; f_encrypt_r (a_block, a_edflag, a_data); r_errno = errno; }
-static void call_setkey (void) { errno = 0; f_setkey (a_key); r_errno = errno; }
-static void call_encrypt (void) { errno = 0; f_encrypt (a_block, a_edflag); r_errno = errno; }
+static void call_gensalt_ra (void) { errno = ein (); r_ret = f_gensalt_ra (a_prefix, a_count, a_rb, a_nrbytes); r_errno = errno; ein_last = r_errno; }
+static void call_checksalt (void) { errno = ein (); r_int = f_checksalt (a_set); r_errno = errno; ein_last = r_errno; }
+static void call_setkey_r (void) { errno = ein (); f_setkey_r (a_key, a_data); r_errno = errno; ein_last = r_errno; }
+static void call_encrypt_r (void) { errno = ein (); f_encrypt_r (a_block, a_edflag, a_data); r_errno = errno; ein_last = r_errno; }
+static void call_setkey (void) { errno = ein (); f_setkey (a_key); r_errno = errno; ein_last = r_errno; }
+static void call_encrypt (void) { errno = ein (); f_encrypt (a_block, a_edflag); r_errno = errno; ein_last = r_errno; }
 
 /* ------------------------------------------------------------------ compression-function events (XCRYPT_VERIF hook) */
 static int cfs_on;
@@ -1058,6 +1062,8 @@ main (int argc, char **argv)
         stack_mode = atoi (t0);
       else if (!strcmp (cmd, "fault"))
         { fault_at = atoi (t0); fault_at2 = t1[0] ? atoi (t1) : 0; }
+      else if (!strcmp (cmd, "errno"))
+        ein_mode = !strcmp (t0, "keep") ? -1 : atoi (t0);
       else if (!strcmp (cmd, "entropy"))
         { ent_mode = atoi (t0); ent_seed = (unsigned char) atoi (t1); ent_calls = 0; }
       else if (!strcmp (cmd, "reset"))
@@ -1093,7 +1099,7 @@ main (int argc, char **argv)
           run_call (isrn ? call_crypt_rn : call_crypt_r);
           fprintf (out, "{\"e\":\"%s\",\"o\":%d,\"al\":%d,\"pl\":%ld,\"ph\":", cmd, id, o->align, a_phrlen);
           emit_ph_s ();
-          fprintf (out, ",\"size\":%d,\"errno\":%d,\"ret\":\"%s\"", isrn ? a_size : CD_SIZE, r_errno,
+          fprintf (out, ",\"size\":%d,\"ein\":%d,\"errno\":%d,\"ret\":\"%s\"", isrn ? a_size : CD_SIZE, ein_used, r_errno,
                    ret_class (r_ret, o->p));
           emit_obj_projection (o->p, pre_img, o);
           emit_statics_written ();
@@ -1116,7 +1122,7 @@ main (int argc, char **argv)
           run_call (call_crypt);
           fprintf (out, "{\"e\":\"%s\",\"o\":-1,\"al\":0,\"pl\":%ld,\"ph\":", cmd, a_phrlen);
           emit_ph_s ();
-          fprintf (out, ",\"size\":%d,\"errno\":%d,\"ret\":\"%s\"", CD_SIZE, r_errno, ret_class (r_ret, sp));
+          fprintf (out, ",\"size\":%d,\"ein\":%d,\"errno\":%d,\"ret\":\"%s\"", CD_SIZE, ein_used, r_errno, ret_class (r_ret, sp));
           if (sp)
             emit_obj_projection (sp, pre_img, 0);
           else
@@ -1156,7 +1162,7 @@ main (int argc, char **argv)
           fprintf (out, "{\"e\":\"crypt\",\"via\":\"gensalt\",\"o\":-1,\"al\":0,\"pl\":%ld,\"ph\":", a_phrlen);
           emit_ph_s ();
           a_set = keep;
-          fprintf (out, ",\"size\":%d,\"errno\":%d,\"ret\":\"%s\"", CD_SIZE, r_errno, ret_class (r_ret, sp));
+          fprintf (out, ",\"size\":%d,\"ein\":%d,\"errno\":%d,\"ret\":\"%s\"", CD_SIZE, ein_used, r_errno, ret_class (r_ret, sp));
           if (sp)
             emit_obj_projection (sp, pre_img, 0);
           emit_statics_written ();
@@ -1191,7 +1197,7 @@ main (int argc, char **argv)
           expect_erase_len = 0;
           fprintf (out, "{\"e\":\"crypt_ra\",\"o\":%d,\"al\":0,\"pl\":%ld,\"ph\":", 100 + id, a_phrlen);
           emit_ph_s ();
-          fprintf (out, ",\"size\":%d,\"errno\":%d,\"ret\":\"%s\"", CD_SIZE, r_errno,
+          fprintf (out, ",\"size\":%d,\"ein\":%d,\"errno\":%d,\"ret\":\"%s\"", CD_SIZE, ein_used, r_errno,
                    ret_class (r_ret, a_h->data));
           fprintf (out, ",\"predata\":%d,\"presize\":%d,\"postdata\":%d,\"postsize\":%d,\"moved\":%d",
                    pre_data != 0, pre_size, a_h->data != 0, a_h->size, a_h->data != pre_data);
@@ -1328,7 +1334,7 @@ main (int argc, char **argv)
           fprintf (out, ",\"rb\":");
           if (a_rb) jstr_codes ((const unsigned char *) a_rb, (size_t) a_rblen); else fprintf (out, "[]");
           fprintf (out, ",\"rbnull\":%d", a_rb ? 0 : 1);
-          fprintf (out, ",\"nrbytes\":%d,\"osize\":%d,\"errno\":%d", a_nrbytes, kind == 0 ? a_outsize : GS_SIZE, r_errno);
+          fprintf (out, ",\"nrbytes\":%d,\"osize\":%d,\"ein\":%d,\"errno\":%d", a_nrbytes, kind == 0 ? a_outsize : GS_SIZE, ein_used, r_errno);
           const char *rc = !r_ret ? "null" : (kind == 0 && r_ret == a_out) ? "out" : "other";
           struct sym *gs = find_sym ("output.");
           if (kind == 1 && r_ret && gs && (uintptr_t) r_ret == libbase + gs->off)
@@ -1400,7 +1406,7 @@ main (int argc, char **argv)
               memcpy (pre_img, o->p, CD_SIZE);
             }
           run_call (isr ? call_setkey_r : call_setkey);
-          fprintf (out, "{\"e\":\"%s\",\"o\":%d,\"key\":\"%s\",\"errno\":%d,\"kb\":", cmd, isr ? id : -1, t1, r_errno);
+          fprintf (out, "{\"e\":\"%s\",\"o\":%d,\"key\":\"%s\",\"ein\":%d,\"errno\":%d,\"kb\":", cmd, isr ? id : -1, t1, ein_used, r_errno);
           jstr_codes (k8, 8);
           if (o)
             {
@@ -1438,8 +1444,8 @@ main (int argc, char **argv)
                 bits01 = 0;
               r8[i / 8] = (unsigned char) (r8[i / 8] | ((a_block[i] & 1) << (7 - i % 8)));
             }
-          fprintf (out, "{\"e\":\"%s\",\"o\":%d,\"in\":\"%s\",\"ed\":%d,\"errno\":%d,\"bits01\":%d,\"res\":", cmd,
-                   isr ? id : -1, t1, a_edflag, r_errno, bits01);
+          fprintf (out, "{\"e\":\"%s\",\"o\":%d,\"in\":\"%s\",\"ed\":%d,\"ein\":%d,\"errno\":%d,\"bits01\":%d,\"res\":", cmd,
+                   isr ? id : -1, t1, a_edflag, ein_used, r_errno, bits01);
           jhex (r8, 8);
           fprintf (out, ",\"ib\":");
           jstr_codes (b8, 8);
